@@ -25,7 +25,7 @@ REG.macro("hhit", ["g0", "lim", "xs", "i", "a", "b"],
 REG.macro("hlinked", ["g0", "lim", "xs", "k", "a", "b"], "exists(Int, lambda i: 0 <= i and i < k and hhit(g0, lim, xs, i, a, b))")
 _XS = "(parent_modules + [old(child)])"
 _AEH_STATE = [
-    "self._level_limit == old(self)._level_limit", "self._all_modules == old(self)._all_modules",
+    "self._level_limit == old(self)._level_limit", "self._all_modules == old(self)._all_modules", "self._imports == old(self)._imports",
     # nodes: exactly the old ones and the flattened parents (NOT the child)
     "forall(Node, lambda x: implies(x in self._graph.nodes, (x in old(self)._graph.nodes) or hnode(old(self)._level_limit, %XS%, %K%, x)))",
     "forall(Node, lambda x: implies((x in old(self)._graph.nodes) or hnode(old(self)._level_limit, %XS%, %K%, x), x in self._graph.nodes))",
@@ -47,6 +47,11 @@ _AEH_WEAK = [
     "forall(Node, Node, lambda a, b: implies(((a, b) in self._graph.edges) and not ((a, b) in old(self)._graph.edges), aeh_pair(old(self)._level_limit, parent_modules, old(child), a, b) and (b in self._graph.nodes)))",
     "forall(Node, Node, lambda a, b: implies(((a, b) in self._graph.inh) and not ((a, b) in old(self)._graph.inh), aeh_pair(old(self)._level_limit, parent_modules, old(child), a, b) and ((a, b) in self._graph.edges)))",
     "forall(Node, Node, lambda a, b: implies(((a, b) in self._graph.edges) and not ((a, b) in old(self)._graph.edges), (a, b) in self._graph.inh))",
+    # when the parents are dotted ancestors of the child (both call sites), a new (inheriting) edge joins the flattened names of an ancestor and of an ancestor-or-self of the child
+    "implies(forall(Int, lambda j: implies(0 <= j and j < len(parent_modules), name_anc(seq_at(parent_modules, j), old(child)))), "
+    "forall(Node, Node, lambda a, b: implies(((a, b) in self._graph.edges) and not ((a, b) in old(self)._graph.edges), a != b and hier_pair(old(self)._level_limit, old(child), a, b))))",
+    "implies(forall(Int, lambda j: implies(0 <= j and j < len(parent_modules), name_anc(seq_at(parent_modules, j), old(child)))), "
+    "forall(Node, Node, lambda a, b: implies(((a, b) in self._graph.inh) and not ((a, b) in old(self)._graph.inh), a != b and hier_pair(old(self)._level_limit, old(child), a, b))))",
     # the child is linked to the LAST parent whenever the child is a node already
     "implies(len(parent_modules) > 0 and (flat(old(self)._level_limit, old(child)) in old(self)._graph.nodes) and "
     "flat(old(self)._level_limit, seq_at(parent_modules, len(parent_modules) - 1)) != flat(old(self)._level_limit, old(child)), "
@@ -82,10 +87,11 @@ REG.macro("anc_or_self", ["p", "m"], "p == m or name_anc(p, m)")
 # chain_node(lim, M, x): x is the flattened name of a module of M or of one of its dotted ancestors
 REG.macro("chain_node", ["lim", "M", "x"], "exists(Node, Node, lambda m, p: (m in M) and anc_or_self(p, m) and x == flat(lim, p))")
 # chain_pair(lim, M, a, b): a != b are the flattened names of a strict dotted ancestor u and of an ancestor-or-self v of ONE module of M
-REG.macro("chain_pair", ["lim", "M", "a", "b"],
-          "a != b and exists(Node, lambda m: (m in M) and exists(Node, lambda u: name_anc(u, m) and a == flat(lim, u)) and exists(Node, lambda v: anc_or_self(v, m) and b == flat(lim, v)))")
+REG.macro("hier_pair", ["lim", "m", "a", "b"],
+          "exists(Node, lambda u: name_anc(u, m) and a == flat(lim, u)) and exists(Node, lambda v: anc_or_self(v, m) and b == flat(lim, v))")
+REG.macro("chain_pair", ["lim", "M", "a", "b"], "a != b and exists(Node, lambda m: (m in M) and hier_pair(lim, m, a, b))")
 _AAM = [
-    "self._level_limit == old(self)._level_limit", "self._all_modules == old(self)._all_modules",
+    "self._level_limit == old(self)._level_limit", "self._all_modules == old(self)._all_modules", "self._imports == old(self)._imports",
     "forall(Node, lambda x: implies(x in self._graph.nodes, (x in old(self)._graph.nodes) or chain_node(old(self)._level_limit, %M%, x)))",
     "forall(Node, lambda x: implies((x in old(self)._graph.nodes) or chain_node(old(self)._level_limit, %M%, x), x in self._graph.nodes))",
     "forall(Node, Node, lambda a, b: implies((a, b) in old(self)._graph.edges, (a, b) in self._graph.edges))",
@@ -98,4 +104,68 @@ _AAM = [
 REG.add(Contract(f"{NG}._add_all_modules_as_nodes", module=M_NX, kind="method", params=dict(self=NG), returns="None", modifies=["self"],
                  ensures=[e.replace("%M%", "old(self)._all_modules") for e in _AAM],
                  loops={0: dict(sig="for module in self._all_modules", invariant=[e.replace("%M%", "seen") for e in _AAM])},
+                 properties=["C02", "C04", "C09", "C13"]))
+
+# ---------------------------------------------------------------- _initialise (default view)
+# Import records with opaque names: the interface of eval_structure.types.Import as far as the constructor uses it (abstract; implemented by
+# AbsoluteImport / RelativeImport, see below). The parent lists are SEQUENCES whose elements are the strict dotted ancestors (order not specified).
+import z3
+from pyvc.vals import V, Node
+IMPN = vals.opaque_sort("ImportN")
+_f_er, _f_ee = z3.Function("impn_importer", IMPN, Node), z3.Function("impn_importee", IMPN, Node)
+REG.specfuns["impn_importer"] = lambda eng, st, i: vals.from_term(vals.parse_type("Node"), _f_er(i.x))
+REG.specfuns["impn_importee"] = lambda eng, st, i: vals.from_term(vals.parse_type("Node"), _f_ee(i.x))
+_IN = dict(self="Opaque[ImportN]")
+REG.add(Contract("ImportN.importer", status="abstract", kind="method", params=_IN, returns="Node", defn="impn_importer(self)"))
+REG.add(Contract("ImportN.importee", status="abstract", kind="method", params=_IN, returns="Node", defn="impn_importee(self)"))
+for _m, _f in (("importer_parent_modules", "impn_importer"), ("importee_parent_modules", "impn_importee")):
+    REG.add(Contract(f"ImportN.{_m}", status="abstract", kind="method", params=_IN, returns="Seq[Node]",
+                     ensures=[f"forall(Int, lambda j: implies(0 <= j and j < len(result), name_anc(seq_at(result, j), {_f}(self))))",
+                              f"forall(Node, lambda p: implies(name_anc(p, {_f}(self)), seq_contains(result, p)))"],
+                     note="the stored get_parent_modules(...) list: its elements are the strict dotted ancestors"))
+vals.OBJ_LAYOUT[NG]["_imports"] = vals.parse_type("Bag[Opaque[ImportN]]")
+
+# where a hierarchy pair may come from: a module of all_modules, an importer, an importee
+REG.macro("init_src", ["all", "I", "m"], "(m in all) or exists(Opaque[ImportN], lambda i: (i in I) and (m == impn_importer(i) or m == impn_importee(i)))")
+REG.macro("init_hpair", ["lim", "all", "I", "a", "b"],
+          "a != b and (exists(Node, lambda m: (m in all) and hier_pair(lim, m, a, b)) or "
+          "exists(Opaque[ImportN], lambda i: (i in I) and (hier_pair(lim, impn_importer(i), a, b) or hier_pair(lim, impn_importee(i), a, b))))")
+REG.macro("init_ipair", ["lim", "I", "a", "b"], "a != b and exists(Opaque[ImportN], lambda i: (i in I) and a == flat(lim, impn_importer(i)) and b == flat(lim, impn_importee(i)))")
+# nodes: modules and their dotted ancestors, and the dotted ancestors of IMPORTERS -- never an importee, never an importee's ancestor
+REG.macro("init_node", ["lim", "all", "I", "x"],
+          "chain_node(lim, all, x) or exists(Opaque[ImportN], lambda i: (i in I) and exists(Node, lambda p: name_anc(p, impn_importer(i)) and x == flat(lim, p)))")
+_L, _ALL, _IMPS = "old(self)._level_limit", "old(self)._all_modules", "old(self)._imports"
+_FRAME = ["self._level_limit == old(self)._level_limit", "self._all_modules == old(self)._all_modules", "self._imports == old(self)._imports"]
+# upper bounds ("only those"); they hold after every single step of the construction, so both loops carry them
+_UPPER = [
+    "forall(Node, Node, lambda a, b: implies((a, b) in old(self)._graph.edges, (a, b) in self._graph.edges))",
+    # a new edge is a hierarchy pair of a module / importer / importee chain or the pair of an import; its endpoints are nodes
+    f"forall(Node, Node, lambda a, b: implies(((a, b) in self._graph.edges) and not ((a, b) in old(self)._graph.edges), init_hpair({_L}, {_ALL}, {_IMPS}, a, b) or init_ipair({_L}, {_IMPS}, a, b)))",
+    "forall(Node, Node, lambda a, b: implies(((a, b) in self._graph.edges) and not ((a, b) in old(self)._graph.edges), (a in self._graph.nodes) and (b in self._graph.nodes)))",
+    # an edge that newly carries inherits=True is a hierarchy pair; an edge that (newly) carries inherits=False is the pair of an import
+    f"forall(Node, Node, lambda a, b: implies(((a, b) in self._graph.inh) and not ((a, b) in old(self)._graph.inh), init_hpair({_L}, {_ALL}, {_IMPS}, a, b)))",
+    "forall(Node, Node, lambda a, b: implies(((a, b) in self._graph.inh) and not ((a, b) in old(self)._graph.inh), (a, b) in self._graph.edges))",
+    f"forall(Node, Node, lambda a, b: implies(((a, b) in self._graph.edges) and (not ((a, b) in self._graph.inh)) and ((not ((a, b) in old(self)._graph.edges)) or ((a, b) in old(self)._graph.inh)), init_ipair({_L}, {_IMPS}, a, b)))",
+]
+# exact node set and the lower bound for import edges (these speak about the imports processed so far)
+_EXACT = [
+    f"forall(Node, lambda x: implies(x in self._graph.nodes, (x in old(self)._graph.nodes) or init_node({_L}, {_ALL}, %I%, x)))",
+    f"forall(Node, lambda x: implies((x in old(self)._graph.nodes) or init_node({_L}, {_ALL}, %I%, x), x in self._graph.nodes))",
+    # every import whose two flattened endpoints are modules / ancestors of modules (or nodes before) and differ IS an edge
+    f"forall(Opaque[ImportN], lambda i: implies((i in %I%) and flat({_L}, impn_importer(i)) != flat({_L}, impn_importee(i)) and "
+    f"((flat({_L}, impn_importer(i)) in old(self)._graph.nodes) or chain_node({_L}, {_ALL}, flat({_L}, impn_importer(i)))) and "
+    f"((flat({_L}, impn_importee(i)) in old(self)._graph.nodes) or chain_node({_L}, {_ALL}, flat({_L}, impn_importee(i)))), "
+    f"(flat({_L}, impn_importer(i)), flat({_L}, impn_importee(i))) in self._graph.edges))",
+]
+_INNER = _FRAME + _UPPER + [
+    "self._graph.nodes == pre(self)._graph.nodes",
+    "forall(Node, Node, lambda a, b: implies((a, b) in pre(self)._graph.edges, (a, b) in self._graph.edges))",
+]
+REG.add(Contract(f"{NG}._initialise", module=M_NX, kind="method", params=dict(self=NG), returns="None", modifies=["self"],
+                 ensures=_FRAME + _UPPER + [e.replace("%I%", _IMPS) for e in _EXACT],
+                 locals=dict(all_importee_modules="Seq[Node]"),
+                 # proof hints (obligations themselves): the upper bounds hold again right after the import edge was tried
+                 ghost_at={"self._add_edges_within_module_hierarchy(": [_UPPER[1], _UPPER[3], _UPPER[4], _UPPER[5]]},
+                 loops={0: dict(sig="for imp in self._imports", invariant=_FRAME + _UPPER + [e.replace("%I%", "seen") for e in _EXACT]),
+                        1: dict(sig="for (parent, child) in zip(all_importee_modules[:-1], all_importee_modules[1:])", invariant=_INNER)},
                  properties=["C02", "C04", "C09", "C13"]))
